@@ -163,3 +163,59 @@ def fetch_case(mt, srcs, req):
         fail = "fetch changed the identity graph of the master or of a source"
     hreq = ["heap_fetch", req[1], req[2], req[4], req[5]]
     return hreq, impl, fail
+
+
+def fetch_diff_case(mt, srcs, req):
+    """identity-graph comparison of `master.fetch_diff(sources=…)` with Phil.Heap.fetchDiffH (Phil/HeapFetchDiff.lean);
+    same answer format as `fetch_case`"""
+    from common import call_j
+    m = freephil.parse(input_string=mt)
+    ss = [freephil.parse(input_string=s) for s in srcs]
+    objs, index = walk([m] + ss)
+    before = graph(objs, index)
+    tmp0 = [getattr(o, "tmp", None) for o in objs]
+    tmpl0 = [o.is_template for o in objs]
+    n0 = len(objs)
+
+    def f():
+        r = m.fetch_diff(sources=ss)
+        objs2, index2 = walk([r], list(objs), dict(index))
+        marks = [i for i in range(n0) if getattr(objs[i], "tmp", None) is True and tmp0[i] is not True]
+        new_marks = sum(1 for o in objs2[n0:] if getattr(o, "tmp", None) is True)
+        return [graph(objs2, index2), index2[id(r)], marks, new_marks, n0]
+    impl = call_j(f)
+    fail = None
+    if graph(objs, index) != before:
+        fail = "fetch_diff changed the identity graph of the master or of a source"
+    elif [o.is_template for o in objs] != tmpl0:
+        fail = "fetch_diff changed is_template of an object of the master or of a source"
+    hreq = ["heap_fetch_diff", req[1], req[2], req[4], req[5]]
+    return hreq, impl, fail
+
+
+def format_case(mt, srcs, req):
+    """identity-graph comparison of `master.format(python_object)` with Phil.Heap.formatH (Phil/HeapFormat.lean): the
+    python object is `master.fetch(sources).extract()` of OTHER parses of the same texts; the graph of a FRESH parse of
+    the master before, then the new objects reachable from the format result, the result's id, the number of old
+    objects and the `is_template` of every OLD object after the call (the template flag must go to the NEW copies)"""
+    from common import call_j
+    m = freephil.parse(input_string=mt)
+    objs, index = walk([m])
+    before = graph(objs, index)
+    tmpl0 = [o.is_template for o in objs]
+    n0 = len(objs)
+
+    def f():
+        m1 = freephil.parse(input_string=mt)
+        po = m1.fetch(sources=[freephil.parse(input_string=s) for s in srcs]).extract()
+        r = m.format(python_object=po)
+        objs2, index2 = walk([r], list(objs), dict(index))
+        return [graph(objs2, index2), index2[id(r)], n0, [o.is_template for o in objs]]
+    impl = call_j(f)
+    fail = None
+    if graph(objs, index) != before:
+        fail = "format changed the identity graph of the master"
+    elif [o.is_template for o in objs] != tmpl0:
+        fail = "format changed is_template of an object of the master"
+    hreq = ["heap_format", req[1], req[2], req[4], req[5]]
+    return hreq, impl, fail
